@@ -47,6 +47,14 @@ def oracle(script: dict, run: Any) -> List[Violation]:
             if ns is not None and (ns > N or (seen_sleep and ns != N)):
                 out.append(Violation("C17/slot-count-changed", f"manager has {ns} worker slots at tick {e[1]}, configured {N}"))
                 return out
+    # start-up: by the time the manager begins to supervise (its first sleep), a process has been started for every slot
+    first_sleep = next((e for e in run.events if e[3] == "sleep"), None)
+    if first_sleep is not None:
+        started = {e[4]["name"] for e in run.events if e[3] == "start" and e[0] < first_sleep[0]}
+        missing = [f"worker-{i}" for i in range(N) if f"worker-{i}" not in started]
+        if missing:
+            out.append(Violation("C17/slot-not-started-at-startup", f"no process was started for {missing} before supervision began"))
+            return out
     # old one terminated and waited for before its replacement starts
     by_name: Dict[str, List[int]] = {}
     terminated, joined = set(), set()
